@@ -54,7 +54,7 @@ def find_struct(gr, key):
 
 
 def run(res, prop, propfile, corpus, *, entry="VT", use_ctx=False, spec=True, allocs=False,
-        require_generated=True, classify=None, extra=None, tag=None, pre_build=None, spec_cmp="obs_same_set"):
+        require_generated=True, classify=None, extra=None, tag=None, pre_build=None, spec_cmp="obs_same_set", exec_cmp=True):
     """Runs the pipeline and the standard classification. Returns (GenRun, coq results) for extra checks."""
     res.assumptions = TRUSTED_GEN
     res.coverage["trusted_base"] = TRUSTED_GEN
@@ -164,7 +164,7 @@ def run(res, prop, propfile, corpus, *, entry="VT", use_ctx=False, spec=True, al
                            "what": "the file govalid emitted is not the file the generator model predicts; "
                                    "no value of the corpus separates the compiled code from the specification"},
                           found_input=False)
-        if r["mm"] and not r["ms"]:
+        if exec_cmp and r["mm"] and not r["ms"]:     # exec_cmp=False: conditions outside GoLite (CEL text), the caller brings its own oracle
             j = r["mm"][0]
             o = gr.obs.get("%s/%d" % (m["key"], j), {})
             res.violation({"kind": "correspondence-break", "struct": m["key"], "source": src, "case_index": j,
